@@ -26,7 +26,7 @@ from props import exprlib as el
 ID = 'C01'
 PROFILES = ['dev', 'release']
 REPLAY_PROFILES = ['dev', 'release']
-TIME_LIMIT = {'quick': 900, 'thorough': 3000}
+TIME_LIMIT = {'quick': 900, 'thorough': 3300}
 BUDGET = 120
 FIRST_BUDGET = 60
 
@@ -59,7 +59,7 @@ def tokens_for(n, parens, pct=(), ops=None, allowed='+-*/^'):
 
 def jobs(tier, seed, report):
     nmax = 4 if tier == 'quick' else 5
-    report.bounds = {'operands': f'2..{nmax} literals, every operator slot symbolic over + - * / ^', 'parentheses': 'every set of non-crossing groups with nesting <= 2 for 2..3 operands (thorough: ..4); a seeded sample of 6 shapes for 4 operands (thorough: 40 shapes for 5)',
+    report.bounds = {'operands': f'2..{nmax} literals, every operator slot symbolic over + - * / ^', 'parentheses': 'every set of non-crossing groups with nesting <= 2 for 2..3 operands (thorough: ..4); a seeded sample of 6 shapes for 4 operands (thorough: 12 shapes for 5)',
                      'literal_values': 'unbounded symbolic rationals (integer part unbounded)', 'exponents': 'integer literals in [-3,3] (2 operands..3), [-2,2] (4+ operands); groups in exponent position: integers in [-2,2]',
                      'percent': 'each single literal, and all literals, of the flat shapes', 'profiles': 'dev and release MIR'}
     report.outside = ['more operands / deeper nesting', 'non-integer exponents (refused by the code; checked in C04)', 'digits of the literals (C07)', 'sin/cos']
@@ -77,11 +77,11 @@ def jobs(tier, seed, report):
                 if n == 4: rest = rest[:6 if prof == 'dev' else 0]
                 if prof == 'release' and n == 3: rest = rest[:2]
             else:
-                if n == 5: rest = rest[:40 if prof == 'dev' else 0]
+                if n == 5: rest = rest[:12 if prof == 'dev' else 0]
                 if prof == 'release' and n == 4: rest = rest[:8]
             for si, ps in enumerate([flat] + rest):
                 js.append({'name': f'{prof}-n{n}-p{si}', 'profile': prof, 'n': n, 'parens': ps, 'pct': ()})
-            if n <= 3 or (prof == 'dev' and tier != 'quick'):
+            if n <= 3 or (prof == 'dev' and tier != 'quick' and n <= 4):
                 for pc in [(i,) for i in range(n)] + [tuple(range(n))]:
                     js.append({'name': f'{prof}-n{n}-pct{"".join(map(str, pc))}', 'profile': prof, 'n': n, 'parens': (), 'pct': pc})
         js.append({'name': f'{prof}-single', 'profile': prof, 'n': 1, 'parens': (), 'pct': ()})
